@@ -180,7 +180,7 @@ package netconf
 // always). The clause below says what C02 / C08 need; nothing connects it to the pattern match, it FAILS, and is recorded as
 // open finding F11.
 //@ spec wholeFrame11(b []byte) bool
-//@ func (*Driver).read [C08]
+//@ func (*Driver).read [C08 C07]
 //@   at call! storeMessage#1 assert [C02] #what-is-filed-as-a-reply-is-one-whole-chunked-message d.SelectedVersion == "1.1" ==> wholeFrame11(arg1)
 //@   maintains RI(d.Channel.Q)
 //@   requires d.messages != nil && d.subscriptions != nil
